@@ -905,7 +905,7 @@ def settle(ctx, res, cases, stats):
         for ci, ri, typed in a2a_idx:
             first_ = cases[ci].code.get(cases[ci].main) or {}
             check_a2a(res, case_json(cases[ci]), replies[ri], cases[ci].a2a_real, first_.get("tree"), stats,
-                      accepted=bool(first_.get("ok")))
+                      accepted=bool(first_.get("ok")), expr_rules=reqs[ri].get("expr_rules"))
             if typed:
                 check_semsrc(res, cases[ci], replies[ri + 1], stats)
         for ci, ri in idx:
@@ -1033,7 +1033,7 @@ def check_semsrc(res, c, sem, stats):
             return
 
 
-def check_a2a(res, cj, m, real, captured, stats, accepted=None):
+def check_a2a(res, cj, m, real, captured, stats, accepted=None, expr_rules=None):
     """the Lean model of `ast2ast` (QV.A2A.ast2ast, driver op c01.ast2ast) on the source tree against the real pass on a
     fresh parse of the same text: same exception (class, and the message contains the model's key) or the same
     tree after the canonical serialisation of harness/a2a.py (every node), and the same Front syntax (`toP` of the
@@ -1065,6 +1065,9 @@ def check_a2a(res, cj, m, real, captured, stats, accepted=None):
         st["agree_tree"] += 1
     for r in (m.get("rules") or []):
         st["rules"][r] = st["rules"].get(r, 0) + 1
+    er = st.setdefault("expr_rules", {})
+    for r in (expr_rules or []):
+        er[r] = er.get(r, 0) + 1
     cls = m.get("class")
     if cls is not None:
         tc = st.setdefault("theorem_classes", dict(typed_programs=0, straightLine=0, guardedLine=0, okProg=0,
@@ -1084,7 +1087,7 @@ def check_a2a(res, cj, m, real, captured, stats, accepted=None):
 def run_a2a_forms(ctx, lib, res, stats):
     """one program per rewriting rule / quirk / exception of ast2ast: correspondence only"""
     reqs, cases = [], []
-    for tag, src in a2a.A2A_FORMS:
+    for tag, src in list(a2a.A2A_FORMS) + [("x:" + t, s_) for t, s_ in a2a.EXPR_FORMS]:
         r = a2a.source_request(src)
         if r is not None:
             reqs.append(r)
@@ -1092,8 +1095,9 @@ def run_a2a_forms(ctx, lib, res, stats):
     replies = ctx.model(reqs)
     if replies is None:
         return
-    for (tag, src), m in zip(cases, replies):
-        check_a2a(res, dict(tag="a2a:" + tag, src=src), m, a2a.real_result(lib.ast2ast, src), None, stats)
+    for (tag, src), m, rq in zip(cases, replies, reqs):
+        check_a2a(res, dict(tag="a2a:" + tag, src=src), m, a2a.real_result(lib.ast2ast, src), None, stats,
+                  expr_rules=rq.get("expr_rules"))
     a2a_stats(stats)["rewrite_forms"] = len(cases)
 
 
